@@ -109,9 +109,9 @@ Fixpoint scan_ops (i : nat) (s : str) : list (nat * nat * op) :=
   | c :: r =>
       let next_eq := match r with 61 :: _ => true | _ => false end in
       if c =? 62 then
-        (if next_eq then (i, (i + 2)%nat, GE) else (i, (i + 1)%nat, GT)) :: scan_ops (S i) r
+        (if next_eq then (i, S (S i), GE) else (i, S i, GT)) :: scan_ops (S i) r
       else if c =? 60 then
-        (if next_eq then (i, (i + 2)%nat, LE) else (i, (i + 1)%nat, LT)) :: scan_ops (S i) r
+        (if next_eq then (i, S (S i), LE) else (i, S i, LT)) :: scan_ops (S i) r
       else scan_ops (S i) r
   end.
 (* &pattern[a..b]; Rust panics when a > b or b > len *)
